@@ -16,12 +16,14 @@
 EXTENDS Naturals, Sequences, FiniteSets, TLC
 
 Kinds == {"int", "intList", "tokens", "tokenLists", "model", "modelList", "modelUnion", "anyType", "wildcardList",
-          "attributes", "primUnion", "compound", "enum", "nillableInt", "requiredInt"}
+          "attributes", "primUnion", "compound", "enum", "nillableInt", "requiredInt",
+          "hierarchy", "hierarchyList"}     \* a field typed with the BASE of a chain H0 <- H1 <- H2 <- H3 (each level adds a required field)
 
 \* JSON shapes (the harness materialises them; names are self-describing)
 Shapes == {"null", "true", "int", "float", "str", "numstr", "emptyList", "intList", "strList", "listOfIntLists", "listOfEmptyList",
            "emptyObj", "leafObj", "unknownKeyObj", "listOfLeafObj", "listOfEmptyObj", "listOfNull", "anyElementObj", "derivedObj",
-           "strDict", "nestedList3"}
+           "strDict", "nestedList3",
+           "h0Obj", "h1Obj", "h2Obj", "h3Obj", "listOfHObjs"}  \* objects with exactly the fields of level n of the chain; one of each
 
 Positions == {"root", "nested", "inList"}
 
@@ -42,6 +44,9 @@ Canonical(k, s) ==
     [] k = "primUnion"    -> s \in {"null", "int", "str"}
     [] k = "compound"     -> s \in {"emptyList", "intList", "listOfLeafObj"}
     [] k = "enum"         -> s \in {"null", "str"}
+    \* no type marker in the dictionary form: the decoder has to find the one class of the hierarchy whose fields fit
+    [] k = "hierarchy"     -> s \in {"null", "h0Obj", "h1Obj", "h2Obj", "h3Obj"}
+    [] k = "hierarchyList" -> s \in {"emptyList", "listOfHObjs"}
 
 \* C10: a scalar the declared type has no lexical form for.  The decoder keeps it (as its lexical form) with a
 \* ConverterWarning, or fails with ParserError when conversion warnings are configured to fail.
@@ -55,5 +60,5 @@ Unconvertible(k, s) ==
 TableSane == /\ \A k \in Kinds : \E s \in Shapes : Canonical(k, s)
              /\ ~Canonical("requiredInt", "null")
              /\ \A k \in Kinds, s \in Shapes : ~(Canonical(k, s) /\ Unconvertible(k, s))
-             /\ \A k \in {"intList", "tokens", "tokenLists", "modelList", "wildcardList", "compound"} : Canonical(k, "emptyList") /\ ~Canonical(k, "null")
+             /\ \A k \in {"intList", "tokens", "tokenLists", "modelList", "wildcardList", "compound", "hierarchyList"} : Canonical(k, "emptyList") /\ ~Canonical(k, "null")
 =============================================================================
